@@ -1,11 +1,13 @@
 import Driver.Util
 import ZvbiModel.Xds.Model
+import ZvbiModel.Xds.Service
 namespace Zvbi.Driver.Xds
 open Zvbi.Driver Zvbi.Xds Zvbi.Gen.Xds
 
 structure St where
   d : Demux.State := Demux.init
   s : Sep.State := Sep.init
+  v : Svc.State := Svc.init
 
 def optIdx : Option Nat → String
   | some i => toString i
@@ -24,17 +26,32 @@ def pair (h : String) : Option (Nat × Nat) :=
   | some [a, b] => some (a, b)
   | _ => none
 
-/-- `s xxxx` (and `p xxxx`: same call; the events the harness adds are stripped by checks/C09.py) -/
-def sepOp (st : St) (h : String) : St × String :=
+def showPi (cls : Nat) (p : Svc.PI) : String :=
+  let ty := if p.typeEia then toHex (p.typeId.takeWhile (· != 0)) else "none"
+  let ds := (List.range 8).foldl (fun acc i => acc ++ s!" d{i}={toHex (p.description.getD i [])}") ""
+  s!" ev:pi f={cls} pin={p.month}.{p.day}.{p.hour}.{p.min} td={if p.tapeDelayed then 1 else 0} len={p.lengthHour}:{p.lengthMin} el={p.elapsedHour}:{p.elapsedMin}:{p.elapsedSec} title={toHex p.title} rating={p.ratingAuth}/{p.ratingId}/{p.ratingDlsv} cgms={p.cgms} capsvc=-1 type={ty}{ds}"
+
+def showEv : Svc.Ev → String
+  | .progInfo f p => showPi f p
+  | .network name call nuid td => s!" ev:net name={toHex name} call={toHex call} nuid={nuid} td={td}"
+  | .networkId => " ev:netid"
+
+/-- `s xxxx` / `p xxxx`: the same call into the decoder; `p` also prints the service decoder's events
+    (` ev?` once a packet type the service model does not cover was delivered) -/
+def sepOp (events : Bool) (st : St) (h : String) : St × String :=
   match pair h with
   | none => (st, "rej parse")
   | some b =>
-    let (s', o) := Sep.step sepErrClearsCurr st.s b
+    let r := Svc.step sepErrClearsCurr (st.s, st.v) b
+    let s' := r.1.1
+    let o := r.2.1
     let (tc, tk) := digest s'.slots
     let p := match o.dec with
       | some p => s!" dec {p.cls} {p.sub} {p.data.length} {toHex p.data}"
       | none => ""
-    ({ st with s := s' }, s!"ok cur={optIdx s'.curr} xds={if s'.xds then 1 else 0} tc={tc} tk={tk}{errTag o.err}{p}")
+    let ev := if !events then "" else if r.1.2.lost then " ev?" else String.join (r.2.2.map showEv)
+    ({ st with s := s', v := r.1.2 },
+     s!"ok cur={optIdx s'.curr} xds={if s'.xds then 1 else 0} tc={tc} tk={tk}{errTag o.err}{p}{ev}")
 
 def step (st : St) (ws : List String) : St × String :=
   match ws with
@@ -50,8 +67,8 @@ def step (st : St) (ws : List String) : St × String :=
         | some p => s!" pkt {p.cls} {p.sub} {p.data.length} {toHex p.data} z=1"
         | none => ""
       ({ st with d := d' }, s!"ok r={if o.r then 1 else 0} cur={optIdx d'.curr} tc={tc} tk={tk}{errTag o.err}{p}")
-  | ["p", h] => sepOp st h
-  | ["s", h] => sepOp st h
+  | ["p", h] => sepOp true st h
+  | ["s", h] => sepOp false st h
   | "d" :: _ => (st, "rej parse")
   | "s" :: _ => (st, "rej parse")
   | "p" :: _ => (st, "rej parse")
